@@ -21,6 +21,9 @@ def top(byte, n=4, tail=0x11):
 
 def run(check, ctx):
     repo = ctx.repo
+    fixed_width_rows(check, repo)
+    pem_padding_rows(check, repo)
+    passphrase_encoding_siblings(check, repo)
     b64 = {"binascii.b2a_base64": lambda i, a, kw, st, node: b"<B64>\n"}
     # ---- OpenSSH public key writers: RFC 4251 mpint sign byte --------------------------
     for tb in (0x7F, 0x80, 0x81, 0xFF, 0x01):
@@ -107,3 +110,119 @@ def run(check, ctx):
             max_depth=8, rule="K",
             what="ECPrivateKey {1, OCTET STRING of exactly ceil(log2(n)/8) octets, [0] namedCurve, [1] publicKey}",
             cite="RFC 5915 3: privateKey is an octet string of length ceiling(log2(n)/8)"))
+
+
+def fixed_width_rows(check, repo):
+    """Public-key encodings with a fixed field width (RFC 7748 u-coordinate, RFC 8032 point, SEC 1 point): a
+    coordinate whose top bytes are zero is still written with the full width."""
+    mod = repo.module(ECC)
+    cls = repo.cls(mod, "EccKey")
+    ids = {}
+    for b in repo.cls(mod, "_CurveID").body if False else []:
+        pass
+    from .c05_extra import curve_ids
+    ids = curve_ids(repo)
+    wrong = []
+    n = 0
+    cases = []
+    for size, name in ((32, "CURVE25519"), (56, "CURVE448")):
+        for x in (9, (1 << (8 * size - 9)) + 5, (1 << (8 * size - 17)) + 1, (1 << (8 * size - 1)) - 3, 0):
+            cases.append(("_export_montgomery_public", name, size, x, None, x.to_bytes(size, "little"), {}))
+    for size, name, ylen in ((32, "ED25519", 32), (57, "ED448", 57)):
+        for (x, y) in ((3, 5), (2, (1 << (8 * 31 - 3)) + 9), (7, 1)):
+            enc = bytearray(y.to_bytes(ylen, "little"))
+            enc[ylen - 1] |= (x & 1) << 7
+            cases.append(("_export_eddsa_public", name, size, x, y, bytes(enc), {}))
+    for size, name in ((32, "P256"), (66, "P521")):
+        for (x, y) in ((5, 7), ((1 << (8 * size - 20)) + 1, 4), (3, (1 << (8 * size - 9)) + 2)):
+            cases.append(("_export_SEC1", name, size, x, y, b"\x04" + x.to_bytes(size, "big") + y.to_bytes(size, "big"), {"compress": False}))
+            cases.append(("_export_SEC1", name, size, x, y, bytes([2 + (y & 1)]) + x.to_bytes(size, "big"), {"compress": True}))
+    for (meth, cname, size, x, y, want, args) in cases:
+        it = Interp(repo, max_depth=3, method_models={"size_in_bytes": lambda i, base, a, kw, st, node, size=size: size,
+                                                       "is_odd": lambda i, base, a, kw, st, node: bool(base & 1) if isinstance(base, int) else UNK})
+        st = State()
+        me = it.new_obj(st, mod, cls, havoc=False)
+        curve = it.new_obj(st, label="curve", attrs={"id": ids[cname], "is_montgomery": cname.startswith("CURVE"),
+                                                     "is_edwards": cname.startswith("ED"), "is_weierstrass": cname.startswith("P"),
+                                                     "modulus_bits": 8 * size, "oid": "1.2.3"})
+        pq = it.new_obj(st, label="pointQ", attrs={"x": x, "y": y, "xy": (x, y)})
+        st.heap[me.ident].update({"_curve": curve, "_point": pq, "curve": cname, "_d": None, "_seed": None})
+        it.inject = {"self.pointQ": pq}
+        fn = repo.func(mod, "EccKey." + meth)
+        res = it.run(mod, fn, dict(args), self_obj=me, state=st)
+        rets = res.returns()
+        n += 1
+        got = rets[0].value if len(rets) == 1 and not res.raises() else "<%d exits, raises %s>" % (len(rets), res.raise_classes())
+        if isinstance(got, bytearray):
+            got = bytes(got)
+        if got != want:
+            wrong.append("%s on %s with x = 2^%d%s: %s, expected %d bytes %s.." % (
+                meth, cname, x.bit_length() - 1 if x else 0, "" if y is None else ", y = 2^%d" % (y.bit_length() - 1),
+                ("%d bytes %s.." % (len(got), got[:6].hex())) if isinstance(got, bytes) else repr(got)[:60], len(want), want[:6].hex()))
+    fn = repo.func(mod, "EccKey._export_montgomery_public")
+    check.ob("K", "K|ecc.fixed_width", not wrong, mod.path, fn.lineno,
+             extracted="; ".join(wrong[:3]) if wrong else "%d rows: RFC 7748 u (32/56 bytes, little endian), RFC 8032 points (32/57 bytes with the sign bit), SEC 1 points (compressed and not) keep their full width when the top bytes of a coordinate are zero" % n,
+             expected="fixed-width fields: the encoding of a key does not get shorter when a coordinate is small (a short encoding is rejected by every importer)")
+
+
+def pem_padding_rows(check, repo):
+    """Legacy PEM encryption (RFC 1423): the DER blob is always PKCS#7-padded, a full block is added when the length
+    is already a multiple of 8."""
+    PEM = "Crypto.IO.PEM"
+    mod = repo.module(PEM)
+    fn = repo.func(mod, "encode")
+    wrong = []
+    for ln in (0, 1, 7, 8, 9, 16, 608):
+        seen = {}
+
+        def m_new(i, a, kw, st, node, seen=seen):
+            return i.new_obj(st, label="des3", attrs={"block_size": 8})
+
+        def mm_encrypt(i, base, a, kw, st, node, seen=seen):
+            v = a[0] if a else None
+            seen["len"] = len(v) if isinstance(v, (bytes, bytearray)) else getattr(v, "n", None)
+            seen["data"] = v
+            return v if isinstance(v, (bytes, bytearray)) else ABytes(seen["len"])
+        it = Interp(repo, max_depth=3, extra_models={"Crypto.Cipher.DES3.new": m_new,
+                                                     "Crypto.Protocol.KDF.PBKDF1": lambda i, a, kw, st, node: bytes(a[2]) if len(a) > 2 and isinstance(a[2], int) else ABytes(None),
+                                                     "binascii.b2a_base64": lambda i, a, kw, st, node: b"B64\n",
+                                                     "binascii.hexlify": lambda i, a, kw, st, node: b"00" * 8},
+                    method_models={"encrypt": mm_encrypt})
+        data = bytes((i * 7 + 1) & 0xFF for i in range(ln))
+        res = it.run(mod, fn, {"data": data, "marker": "X", "passphrase": b"pw", "randfunc": lambda *a: b"S" * 8})
+        want = ln + (8 - ln % 8)
+        d = seen.get("data")
+        ok = seen.get("len") == want and (not isinstance(d, (bytes, bytearray)) or bytes(d) == data + bytes([want - ln]) * (want - ln))
+        if not ok:
+            wrong.append("%d bytes of DER: the cipher receives %r bytes, RFC 1423 1.1 padding gives %d" % (ln, seen.get("len"), want))
+    check.ob("K", "K|pem.legacy.padding", not wrong, mod.path, fn.lineno,
+             extracted="; ".join(wrong[:3]) if wrong else "7 lengths (incl. multiples of 8): the encrypted body is DER || PKCS#7 padding, one full block when the length is a multiple of the block",
+             expected="RFC 1423 1.1: 8 - (len mod 8) padding bytes are always appended (an importer strips them unconditionally)")
+
+
+def passphrase_encoding_siblings(check, repo):
+    """Every export and import path turns a text passphrase into bytes the same way."""
+    sites = []
+    for mname in sorted(repo.modules):
+        if not (mname.startswith("Crypto.PublicKey.") or mname.startswith("Crypto.IO.")):
+            continue
+        m = repo.modules[mname]
+        for q, f in sorted(m.funcs.items()):
+            for c in ast.walk(f):
+                if isinstance(c, ast.Call) and isinstance(c.func, ast.Name) and c.func.id in ("tobytes", "tostr") and c.args and \
+                        isinstance(c.args[0], ast.Name) and c.args[0].id in ("passphrase", "password"):
+                    extra = tuple(norm(a) for a in c.args[1:]) + tuple("%s=%s" % (k.arg, norm(k.value)) for k in c.keywords)
+                    sites.append((mname, q, c.lineno, c.func.id, extra))
+    if len(sites) < 6:
+        raise AnalysisError("only %d passphrase conversions found (confirmed: 8)" % len(sites))
+    kinds = {}
+    for s_ in sites:
+        kinds.setdefault((s_[3], s_[4]), []).append(s_)
+    major = max(kinds.items(), key=lambda kv: len(kv[1]))[0]
+    odd = [s_ for k, v in kinds.items() if k != major for s_ in v]
+    check.ob("S", "S|passphrase.encoding", not odd, repo.modules[sites[0][0]].path, sites[0][2],
+             extracted=("%d of %d sites differ from %s%r: " % (len(odd), len(sites), major[0], major[1]) + "; ".join(
+                 "%s.%s line %d uses %s%r" % (x[0].split(".")[-1], x[1], x[2], x[3], x[4]) for x in odd[:3])) if odd else
+             "%d conversions in RSA/DSA/ECC export_key / import_key and PKCS8 wrap / unwrap, all %s(passphrase%s)" % (
+                 len(sites), major[0], "".join(", " + e for e in major[1])),
+             expected="a key exported under a text passphrase is opened by the same text: one encoding (Latin-1, py3compat.tobytes default) on every path")
